@@ -6,11 +6,17 @@ check("C01", "model_checking",
       "legality and the machine's monitors as invariants; every cell, skeleton and program is compiled by the real compiler, executed with "
       "lli and compared on full stdout (programs the machine refuses must be rejected); random well-typed programs over the whole "
       "documented language are compiled and executed and TLC validates their recorded output by running the machine on the logged "
-      "program. Each program runs in several layouts that must agree.",
+      "program. Each program runs in several layouts that must agree, and every random program also split over two files (lib.pn / main.pn, "
+      "in both file orders, with unused private constants added) must behave like the single file. The documented C interoperability is an "
+      "executed family of its own (CInterop.tla: foreign functions whose meaning the specification defines, both call directions, all ABI "
+      "integer types with dirty upper bits, views, pointers, parameter lists up to 12): C templates compiled by clang, the program linked "
+      "and run under lli and natively (clang -O0 / -O1), the calling-convention and linkage facts of the IR compared with the rule.",
       "Trusted: TLC, Machine.tla/Wide.tla (Wide is model-checked against native arithmetic for 8/16 bits), Layout.tla, decimal<->limb "
       "conversion in Python, lli. Stage 3 of the design: all integer widths, bool, casts, blocks/goto/if-else/loop, calls in statements and "
       "expressions, pointers with explicit address assignment, views, slice pointers, lengths, multi-dimensional arrays, structs, words, "
       "constants of aggregate type, size-of. Unconstrained (kept out, docs/notes-machine.md): evaluation order of sibling operands with "
-      "side effects, functions returning pointers, char8 arithmetic, printing of pointers. Random programs: 240 quick / 4000 thorough.",
+      "side effects, functions returning pointers, char8 arithmetic, printing of pointers. Random programs: 240 quick / 4000 thorough; "
+      "C interoperability: 234 programs x {lli, native} + 48 / 1000 random mixed programs (trusted there: clang-14, llvm-link-14; the C "
+      "templates compute in the unsigned type of the same width, so C's promotions never decide a result).",
       "TLA+ operational semantics (Machine.tla) evaluated by TLC: exhaustive operator matrix, control-flow skeletons and caller/callee family replayed on the compiler; TLC invariants for non-interference; TLC trace validation of recorded program output",
       "DESIGN.md section 5 C01")
